@@ -615,43 +615,70 @@ def features(P):
 
 # --------------------------------------------------------------------------- streams
 
-def micro_stream(ford, drv, rng, n, rep):
-    """`_set_display` on a stub vs `setDisplay`."""
+def micro_stream(ford, drv, rng, n, rep, stats=None):
+    """`_set_display` vs `setDisplay`, on copies of *real* objects: one of every class of the translator's probe
+    project (variable, procedures, types, bindings, modules, ... and the source file) x `meta.proc_internals` off / on.
+    The model takes neither the class nor `proc_internals`: `display` is independent of both (property statement:
+    `display`, `proc_internals` and `hide_undoc` are separate options).  An exception of the implementation is a
+    disagreement, not a harness error."""
+    import copy
+
     import ford.sourceform as sf
+    from translate import c05_probe as PR
 
     words = ["public", "private", "protected", "none", "bogus", "PUBLIC", "None"]
 
-    class Meta:
-        pass
+    class Par:
+        def __init__(self, display):
+            self.display = display
 
-    reqs, exp = [], []
+    cx = PR.Ctx()
+    try:
+        insts = {c: o for c, o in sorted(cx.by_class.items()) if hasattr(o, "_set_display") and hasattr(o, "meta")}
+    finally:
+        cx.close()
+    files = [c for c, o in insts.items() if isinstance(o, sf.FortranSourceFile)]
+    procs = [c for c, o in insts.items() if getattr(o, "obj", None) == "proc"]
+    others = [c for c in insts if c not in files and c not in procs]
+    hist = {}
+    reqs, exp, raised = [], [], 0
     for _ in range(n):
         is_file = rng.random() < 0.3
         parent = [rng.choice(words[:5]) for _ in range(rng.randint(0, 3))]
         md = [rng.choice(words) for _ in range(rng.choice([0, 0, 1, 1, 2, 3]))]
-        obj = (sf.FortranSourceFile if is_file else sf.FortranVariable).__new__(
-            sf.FortranSourceFile if is_file else sf.FortranVariable)
-        obj.meta = Meta()
+        cname = rng.choice(files) if is_file else rng.choice(procs if rng.random() < 0.5 else others)
+        pi = rng.random() < 0.5
+        hist[f"{cname}/proc_internals={'on' if pi else 'off'}"] = hist.get(f"{cname}/proc_internals={'on' if pi else 'off'}", 0) + 1
+        obj = copy.copy(insts[cname])
+        obj.meta = copy.copy(obj.meta)
         obj.meta.display = list(md)
+        obj.meta.proc_internals = pi
         if is_file:
             obj.parent = None
             obj.display = list(parent)
         else:
-            par = Meta()
-            par.display = list(parent)
-            obj.parent = par
+            obj.parent = Par(list(parent))
             obj.display = ["stale"]
-        obj._set_display()
-        reqs.append(["c05.setdisplay", "1" if is_file else "0", G.enc_words(parent), G.enc_words([m.lower() for m in md])])
-        exp.append(["ok", "+".join(WORD_CODE.get(w, "other") for w in obj.display)])
+        req = ["c05.setdisplay", "1" if is_file else "0", G.enc_words(parent), G.enc_words([m.lower() for m in md])]
+        try:
+            obj._set_display()
+            out = ["ok", "+".join(WORD_CODE.get(w, "other") for w in obj.display)]
+        except Exception as ex:  # noqa: BLE001
+            raised += 1
+            out = ["raised", type(ex).__name__]
+        reqs.append(req)
+        exp.append((out, cname, pi))
     got = drv.batch(reqs)
     bad = 0
-    for r, e, g in zip(reqs, exp, got):
+    for r, (e, cname, pi), g in zip(reqs, exp, got):
         g = g + [""] * (2 - len(g))
         if e != g[:2]:
             bad += 1
-            rep.tie_broken(f"correspondence micro/_set_display: model {g} vs implementation {e} on {r[1:]}",
-                           {"stream": "micro", "request": r, "impl": e, "model": g})
+            rep.tie_broken(f"correspondence micro/_set_display: model {g} vs implementation {e} on {r[1:]} "
+                           f"({cname}, proc_internals {'on' if pi else 'off'})",
+                           {"stream": "micro", "request": r, "impl": e, "model": g, "class": cname, "proc_internals": pi})
+    if stats is not None:
+        stats["micro_histogram"] = dict(sorted(hist.items()))
     return len(reqs), bad
 
 
@@ -1306,7 +1333,7 @@ def run(tier: str, seed: int, replay: str | None = None) -> int:
              "oracle_failures": 0, "e2e_cases": 0}
     if replay:
         return run_replay(ford, drv, rep, lean, replay)
-    ev_micro, bad_micro = micro_stream(ford, drv, rng, n_micro, rep)
+    ev_micro, bad_micro = micro_stream(ford, drv, rng, n_micro, rep, stats)
     with common.scratch_dir() as d:
         (d / "p").mkdir()
         variant = prune_stream(ford, drv, rng, n_prune, rep, stats, d / "p",
@@ -1345,6 +1372,7 @@ def run(tier: str, seed: int, replay: str | None = None) -> int:
         e2e_graph_cases=stats.get("e2e_graph_cases"),
         e2e_feature_histogram=dict(sorted(stats["e2e_features"].items())),
         e2e_wall_s=stats.get("e2e_wall_s"),
+        micro_histogram=stats.get("micro_histogram"),
         witnesses={k: v for k, v in stats.items() if k.startswith("witness_")},
     )
     rep.assumptions += [
